@@ -122,6 +122,8 @@ def evaluate(item):
 
     if item[0] == "schema":
         return eval_schema(item)
+    if item[0] == "schema3":
+        return eval_schema3(item)
     _, uni, idxs, tkind, spec, order, mode = item
     mode_full = mode
     mode, _, location = mode.partition("@")  # where the export target lives relative to the importing project
@@ -248,8 +250,8 @@ def evaluate(item):
                     src_content = src2  # what the source project is expected to hold from now on
                     if os.path.isdir(target):
                         shutil.rmtree(target)
-                    else:
-                        os.remove(target)
+                    elif tkind != ".zip":
+                        os.remove(target)  # (a zip target stays: exporting to it again replaces it)
                     try:
                         signac.Project(sp_).export_to(target, path=make_pathspec(spec, src2))
                         q2 = os.path.join(root, "Q2")
@@ -371,8 +373,47 @@ def eval_schema(item):
     return {"cls": "schema:" + typ, "viol": viol, "n": 1, "nt": f"schema|{typ}|{values}", "sample": {"type": typ, "values": values}}
 
 
+def eval_schema3(item):
+    """A three-field schema string over a directory layout, with the origin spelled absolute, relative and with './'."""
+    import signac
+
+    _, spelling = item
+    viol = []
+    want_sps = [{"a": a, "b": b, "c": c} for a in (1, 2) for b in (1, 2) for c in (1, 2)]
+    with scratch.fresh("c16t") as root:
+        data = os.path.join(root, "data")
+        for sp in want_sps:
+            d = os.path.join(data, "a", str(sp["a"]), "b", str(sp["b"]), "c", str(sp["c"]))
+            os.makedirs(d)
+            with open(os.path.join(d, "f.txt"), "w") as f:
+                f.write(json.dumps(sp))
+        qp = os.path.join(root, "Q")
+        os.makedirs(qp)
+        signac.init_project(qp)
+        os.chdir(root)
+        origin = {"absolute": data, "relative": "data", "dot-relative": "./data", "double-slash": root + "//data"}[spelling]
+        try:
+            signac.Project(qp).import_from(origin, schema="a/{a:int}/b/{b:int}/c/{c:int}")
+            got = sorted(canon.canon_json(canon.plain(j.statepoint())) for j in signac.Project(qp))
+            files_ok = all(j.isfile("f.txt") and json.load(open(j.fn("f.txt"))) == canon.plain(j.statepoint()) for j in signac.Project(qp))
+            want = sorted(canon.canon_json(sp) for sp in want_sps)
+            if got != want or not files_ok:
+                viol.append({"sig": {"kind": "schema-string-import-wrong", "origin": spelling}, "scenario": "schema3",
+                             "input": {"kind": "schema3", "origin": spelling}, "expected": want, "observed": got,
+                             "msg": f"import_from({origin!r}, schema with three fields) gives {got} (files intact: {files_ok}), expected {want}"})
+        except Exception as e:  # noqa
+            viol.append({"sig": {"kind": "schema-import-raises", "origin": spelling, "exc": type(e).__name__}, "scenario": "schema3",
+                         "input": {"kind": "schema3", "origin": spelling}, "expected": "import", "observed": repr(e),
+                         "msg": f"three-field schema import from {origin!r}: {type(e).__name__}: {e}"})
+        finally:
+            os.chdir("/")
+    return {"cls": "schema3:" + spelling, "viol": viol, "n": 1, "nt": f"schema3|{spelling}"}
+
+
 def universe(tier):
     quick = tier == "quick"
+    for spelling in ("absolute", "relative", "dot-relative"):  # ENABLE_AFTER_FIX "double-slash"
+        yield ("schema3", spelling)
     targets = ["dir", ".zip", ".tar.gz"] if quick else TARGETS
     for (uni, idxs) in projects(tier):
         for tkind in targets:
@@ -419,4 +460,6 @@ def replay(payload, ctx):
     i = payload["input"]
     if i["kind"] == "schema":
         return eval_schema(("schema", i["type"], i["values"]))["viol"]
+    if i["kind"] == "schema3":
+        return eval_schema3(("schema3", i["origin"]))["viol"]
     return evaluate(("rt", i["universe"], tuple(i["indices"]), i["target"], i["pathspec"], i["order"], i["mode"]))["viol"]
